@@ -1283,6 +1283,25 @@ func runMultiTest(t *testing.T, prop string) {
 				}
 			}
 		}
+		if f == nil && prop == "C15" {
+			// "a failed resolution is not cached ... a retry behaves like a first attempt": an operation
+			// fails only when a constructor failed during it, on its own goroutine - never with the
+			// failure of somebody else's attempt that happened to be in flight when it arrived
+			for _, o := range c.X.R.Obs {
+				if o.Kind != "resolve" || o.Err == nil || f != nil || kit.Classify(o.Err) != kit.VCtor {
+					continue
+				}
+				own := false
+				for _, inv := range c.X.W.AllInvs() {
+					if inv.Outcome >= 2 && inv.Goid == o.Goid && inv.StartSeq >= o.StartSeq && (o.EndSeq == 0 || inv.StartSeq <= o.EndSeq) {
+						own = true
+					}
+				}
+				if !own {
+					f = fail("C15", "retry", "stale-failure/concurrent", "get(s%d,%s) failed with %v although no constructor failed during it: it reports the failure of another resolution's attempt", o.Scope, o.Ident, firstLine(o.Err))
+				}
+			}
+		}
 		if f == nil {
 			obs, _ := c.X.observations()
 			if g := c.X.checkC02(obs); g != nil {
@@ -1314,6 +1333,10 @@ func runMultiTest(t *testing.T, prop string) {
 
 func TestC02MultiSchedules(t *testing.T) { runMultiTest(t, "C02") }
 func TestC09MultiSchedules(t *testing.T) { runMultiTest(t, "C09") }
+
+// TestC15MultiSchedules: the same programs judged for "a failed resolution is not cached": only the
+// operation during which a constructor failed reports that failure.
+func TestC15MultiSchedules(t *testing.T) { runMultiTest(t, "C15") }
 
 // ---- C03: overlapping requests for a transient ----
 
